@@ -58,6 +58,22 @@ Lemma multi_local_witness :
     length (go_diags demo_cfg b []) = length (spec_diags demo_cfg b []).
 Proof. intro gbk. exists b_multi. crunch. Qed.
 
+(* unvisited_local_surplus, REPAIRED (fixes/C20-local-surplus.diff): "local c = 5\nlocal d = 1, 2, c, u\nprint(d)\n".
+   The code before the repair (`Scope.before_surplus`) left the loop over the initialisers after `2` (the first one beyond
+   the names): the read of c was never seen - c reported "declared and not used" (type 4) - and neither was the undefined
+   global u (type 2 missing).  The code now in /repo reports exactly what the reference demands. *)
+Definition w_surplus : list N :=
+  [108; 111; 99; 97; 108; 32; 99; 32; 61; 32; 53; 10; 108; 111; 99; 97; 108; 32; 100; 32; 61; 32; 49; 44; 32; 50; 44; 32; 99; 44;
+   32; 117; 10; 112; 114; 105; 110; 116; 40; 100; 41; 10].
+Definition b_surplus : block := Eval vm_compute in block_of w_surplus.
+Lemma surplus_witness :
+  forall gbk : list N -> Z, exists b,
+    parse_file gbk w_surplus = PFile b /\ in_fragment b = true /\ pos_clean b = true /\
+    go_diags_fx demo_cfg Scope.before_surplus b [] = [(4, L 1 6 1 7)] /\
+    spec_diags demo_cfg b [] = [(2, L 2 19 2 20)] /\
+    go_diags demo_cfg b [] = [(2, L 2 19 2 20)].
+Proof. intro gbk. exists b_surplus. crunch. Qed.
+
 Lemma pos_filter_witness :
   forall gbk : list N -> Z, exists b,
     parse_file gbk w_pos = PFile b /\ in_fragment b = true /\ multi_local_order b = false /\ pos_clean b = false /\
